@@ -51,6 +51,39 @@ def run(c):
             raise vf.FrameworkError("%s executed %d of %d" % (fam, stats["n"], len(items)))
         total += stats["n"] + stats["flips"]
         stats_all[fam] = stats
+    # composition with the image-hash specification: every layout of MC_Pe signed over the specification's digest
+    import c01
+    lay = [l for l in c01.layouts(c, "MCInit", "q", "layouts-for-signing") if '"cert":0' in l]
+    if c.quick:
+        lay = [l for k, l in enumerate(lay) if (k + c.seed) % 8 == 0]
+    items = [(1000000 + k, '{"sc":%d,' % (1000000 + k) + l[1:]) for k, l in enumerate(lay)]
+    lst = {"n": 0, "flips": 0}
+
+    def keep2(ev):
+        if ev.get("ev") == "skip":
+            return False
+        lst["n"] += 1
+        lst["flips"] += ev.get("flips", 0)
+        return not ev.get("agree", False)
+    res, deaths = c.run_worker("imglayout", items, keep=keep2, env=env, timeout=1800)
+    d = dict(items)
+    seen = {}
+    for sc, evs in res.items():
+        for ev in evs:
+            if ev.get("model_mismatch"):
+                raise vf.FrameworkError(ev["model_mismatch"])
+            case = json.loads(d[sc])
+            key = "imglayout:" + (ev.get("bad") or ["?"])[0].split(":")[0]
+            seen[key] = seen.get(key, 0) + 1
+            if seen[key] == 1:
+                c.reproduce("imglayout", sc, lambda evs: any(not e.get("agree", True) for e in evs), env=env)
+            c.report(key, "; ".join(ev.get("bad") or []), dict({"case": case, "results": ev.get("results")}, **c.rp("imglayout", d[sc])))
+    for sc, dd in deaths.items():
+        c.report("death:imglayout:%s" % dd["kind"], "process died verifying a signed image", {"case": json.loads(d[sc]), "death": dd})
+    if lst["n"] != len(items) and not c.violations:
+        raise vf.FrameworkError("imglayout executed %d of %d" % (lst["n"], len(items)))
+    total += 6 * lst["n"] + lst["flips"]
+    stats_all["imglayout"] = lst
     c.cov["evaluations"] = total
     c.cov["traces_validated_against_impl"] = sum(s["n"] for s in stats_all.values())
     c.cov["distinct_nontrivial"] = stats_all["imgsym"].get("must_not", 0)
@@ -59,8 +92,10 @@ def run(c):
     c.cov["rule"] = ("every (image, signature blob, verifying certificate) case of spec/MC_Pkcs7Sym.tla with an image: 2 images x blobs with one or two signer infos (honest, transplanted from "
                      "the other image, digest rewritten, attacker-made under the same issuer+serial, unsigned content) x 3 certificates; VerifyImage = SPC digest is this image's /\\ RFCVerify. "
                      "Run through Authenticode.Verify on a reader and through Parse(file).Verify with the blob attached to a real PE image by the harness's own certificate-table writer, "
-                     "alone and behind a foreign signature entry; every %s covered byte of each verifying image is flipped (must stop verifying). distinct_nontrivial = cases the rule rejects") % (
-                         "7th" if c.quick else "single")
+                     "alone and behind a foreign signature entry; every %s covered byte of each verifying image is flipped (must stop verifying). Composition with spec/PeAuthenticode.tla: %s layout of MC_Pe without a certificate table is "
+                     "built, signed by the harness over SHA-256 of the specification's ranges (honest / other key under the same issuer+serial / transplanted digest / both), "
+                     "verified against A and B, and flipped at the boundaries of every covered region. distinct_nontrivial = cases the rule rejects") % (
+                         "7th" if c.quick else "single", "every 8th" if c.quick else "every")
     c.sample(json.loads([l for l in lines if '"img":"I' in l][0]))
     can = json.loads([l for l in lines if '"expect":"must"' in l and '"img":"I' in l][0]); can["sc"] = 999999999; can["expect"] = "must_not"
     r2, _ = c.run_worker("imgsym", [can], parallel=1, env=env)
